@@ -391,7 +391,7 @@ def tab5bc(units, R):
     R.ob('TAB5b', fn, loop_stmt, 'for every byte 1..255 the counting pass reserves what the emitting pass writes', not bad,
          'all 255 values agree' if not bad else 'disagree for bytes %s (counted %s, emitted %s)' % (
              bad[:6], [sorted(counted[b], key=repr) for b in bad[:6]],
-             [sorted((len(t) if t is not None else None) for t in text_of[b]) for b in bad[:6]]), key='count-vs-emit')
+             [sorted(((len(t) if t is not None else None) for t in text_of[b]), key=repr) for b in bad[:6]]), key='count-vs-emit')
     # the text itself: RFC 8259 section 7
     inv = {}
     for letter, val in RFC8259_ESCAPES.items():
@@ -548,6 +548,17 @@ def print_literals(units, R):
                     a = strip_casts(x['args'][1])
                     if a.get('k') == 'str':
                         lit = bytes(a['bytes']).decode('latin1')
+                elif x.get('k') == 'call' and callee_name(x) in u.functions and u.functions[callee_name(x)].static:
+                    # a helper that copies the text it is given (its parameter is the source of a strcpy/memcpy)
+                    h = u.functions[callee_name(x)]
+                    for i, a in enumerate(x['args']):
+                        a0 = strip_casts(a)
+                        if a0.get('k') != 'str' or i >= len(h.params):
+                            continue
+                        pd = h.params[i]['d']
+                        if any(callee_name(c) in ('strcpy', 'memcpy') and len(c['args']) > 1 and
+                               strip_casts(c['args'][1]).get('d') == pd for c in h.calls()):
+                            lit = bytes(a0['bytes']).decode('latin1')
         for lb in labels:
             if lb in want:
                 got[lb] = lit
@@ -647,7 +658,15 @@ def _out8_pass(u, fam, famnames, leaves_dirty, R):
         for nd in cfg.nodes:
             if nd.id in states:
                 transfer(nd, states[nd.id], record=sites)
-        leaves_dirty[fn.name] = bool(states.get(cfg.exit.id))
+        # what matters is the state a *successful* call leaves: a failed printer makes its callers give up (TAB17), and
+        # the buffer with it
+        succ_dirty = False
+        for r in cfg.returns():
+            if r.expr is not None and (const_val(r.expr) == 0 or is_null_const(r.expr)):
+                continue
+            if r.id in states:
+                succ_dirty = succ_dirty or transfer(r, states[r.id])
+        leaves_dirty[fn.name] = succ_dirty
         leaves_dirty['requests:' + fn.name] = any(
             callee_name(c) == 'ensure' or leaves_dirty.get('requests:' + (callee_name(c) or '')) for c in fn.calls())
         for (c, dirty) in sites:
